@@ -97,7 +97,7 @@ func CalculateInterpolatedCurveValue(steps map[int]float64, interpolationType st
 		if input <= float64(currentX) && i == 0 {
 			// input is below the smallest given step, so
 			// we fall back to the value of the smallest step
-			return steps[currentX]
+			return float64(float32(steps[currentX]))
 		}
 
 		if input >= float64(nextX) {
@@ -105,7 +105,7 @@ func CalculateInterpolatedCurveValue(steps map[int]float64, interpolationType st
 		}
 
 		if input == float64(currentX) {
-			return steps[currentX]
+			return float64(float32(steps[currentX]))
 		} else {
 			// input is somewhere in between currentX and nextX
 			currentY := steps[currentX]
@@ -119,7 +119,9 @@ func CalculateInterpolatedCurveValue(steps map[int]float64, interpolationType st
 
 	// input is above (or equal to) the largest given
 	// step, so we fall back to the value of the largest step
-	return steps[xValues[len(xValues)-1]]
+	// Note: the value of a step has to be rounded the same way as interpolated values,
+	// otherwise the curve is not monotonic around steps with fractional values
+	return float64(float32(steps[xValues[len(xValues)-1]]))
 }
 
 // FindClosest finds the closest value to target in options.
